@@ -125,6 +125,11 @@ PowerLawHolds == (phase = "build" /\ input # <<>> /\ Len(input) <= 3) =>
 PadLawHolds == (phase = "build" /\ input # <<>> /\ Len(input) <= 3) =>
   \A pp \in Profs, o \in (Ops \cap ({"prepare", "enforce"} \cup RuleNamesP)), i \in 0..2, j \in 0..2 : PadLaw(W, pp, o, input, i, j)
 
+\* the comparison form obeys the pad law as well; Compare is equality of comparison forms, so for two units with the
+\* same head and tail  Compare(Pad(a), Pad(b)) = Compare(a, b)  (a reported position moves by i)
+CompFormPadLaw == (phase = "build" /\ input # <<>> /\ Len(input) <= 3 /\ UnitString(W, input)) =>
+  \A pp \in Profs, i \in 0..2, j \in 0..2 : CompForm(W, pp, Pad(input, i, j)) = PadResult(CompForm(W, pp, input), input, i, j)
+
 \* ---- emission for replay -----------------------------------------------------------
 DevRes == Sem(WDev, p, op, <<input>>)
 Emit == Done => PrintT(<<"REPLAY", ToJson(
